@@ -694,6 +694,8 @@ func runCase(kind string, c caseDesc, raw []byte) {
 		runConstructed(kind, c.Note, c.Key)
 	case "time":
 		runTime(kind, c.Note)
+	case "ecjwk":
+		runECJWK(kind, c.Note, c.Key)
 	case "fp":
 		runFP(kind, c.Code, c.Key, c.Note)
 	case "didkey":
@@ -827,6 +829,7 @@ func main() {
 	genFP(rng.Fork(500000), scale)
 	genDIDKeys(rng.Fork(600000), scale)
 	genTimes(rng.Fork(1300000), scale)
+	genECJWKs(rng.Fork(1400000), scale)
 }
 
 func min(a, b int) int {
